@@ -145,21 +145,96 @@ void vf_harness()
                            "expect": r"assertion"}])
 
 
+def unit_normmatrix():
+    """congruence product this = t(Y) [X] Y or Y [X] t(Y) (generic loops of MatrixSquareSymmetric::normMatrix)"""
+    NM = 3
+    pre = """
+int nondet_int(); bool nondet_bool(); double nondet_double();
+int g_thrown;
+#define my_throw(msg) do { g_thrown = 1; return; } while (0)
+/* ghost: the output cell (gI,gJ) and the contracted indices (gK,gL) under observation, chosen by the harness */
+int gI, gJ, gK, gL; bool gT;
+int cur_yA, cur_ytot, cur_xKL, cur_xtot;           /* calls since the last setValue */
+int snap_yA, snap_ytot, snap_xKL, snap_xtot, nset_IJ, nset_tot, g_oob;
+struct AMatrix { int nr, nc;
+  int getNRows() const { return nr; } int getNCols() const { return nc; }
+  double getValue(int r, int c) const { if (r < 0 || r >= nr || c < 0 || c >= nc) g_oob = 1;
+    cur_ytot = cur_ytot + 1; if (gT ? (r == gI && c == gK) : (r == gK && c == gI)) cur_yA = cur_yA + 1; return 0.; } };
+struct AMatrixSquare { int n; bool isempty;
+  bool empty() const { return isempty; } int getNSize() const { return n; }
+  double getValue(int r, int c) const { if (r < 0 || r >= n || c < 0 || c >= n) g_oob = 1;
+    cur_xtot = cur_xtot + 1; if (r == gK && c == gL) cur_xKL = cur_xKL + 1; return 0.; } };
+struct MatrixSquareSymmetric { int n;
+  int getNSize() const { return n; }
+  void setValue(int r, int c, double v) { if (r < 0 || r >= n || c < 0 || c > r) g_oob = 1; nset_tot = nset_tot + 1;
+    if (r == gI && c == gJ) { nset_IJ = nset_IJ + 1; snap_yA = cur_yA; snap_ytot = cur_ytot; snap_xKL = cur_xKL; snap_xtot = cur_xtot; }
+    cur_yA = 0; cur_ytot = 0; cur_xKL = 0; cur_xtot = 0; }
+  void normMatrix(const AMatrix& y, const AMatrixSquare& x, bool transpose); };
+"""
+    f = Fn("MatrixSquareSymmetric::normMatrix", "src/Matrix/MatrixSquareSymmetric.cpp",
+           r"^void MatrixSquareSymmetric::normMatrix\(const AMatrix& y, const AMatrixSquare& x, bool transpose\)\s*$")
+    h = r"""
+void vf_harness()
+{
+  AMatrix Y; AMatrixSquare X; MatrixSquareSymmetric M;
+  Y.nr = nondet_int(); Y.nc = nondet_int(); X.n = nondet_int(); M.n = nondet_int(); X.isempty = nondet_bool(); gT = nondet_bool();
+  __CPROVER_assume(1 <= Y.nr && Y.nr <= NM && 1 <= Y.nc && Y.nc <= NM && 1 <= X.n && X.n <= NM && 1 <= M.n && M.n <= NM);
+  int nout = gT ? Y.nr : Y.nc;            /* documented: the result has the dimension of the non-contracted side of Y */
+  int ncon = gT ? Y.nc : Y.nr;            /* contracted dimension */
+  /* X given: the documented preconditions (dimension of X = contracted dimension; the receiving matrix already has the result dimension) */
+  if (!X.isempty) __CPROVER_assume(M.n == nout);
+  gI = nondet_int(); gJ = nondet_int(); gK = nondet_int(); gL = nondet_int();
+  __CPROVER_assume(0 <= gJ && gJ <= gI && gI < nout && 0 <= gK && gK < ncon && 0 <= gL && gL < ncon);
+  g_thrown = 0; g_oob = 0; nset_IJ = 0; nset_tot = 0; cur_yA = 0; cur_ytot = 0; cur_xKL = 0; cur_xtot = 0;
+  M.normMatrix(Y, X, gT);
+  bool conform = X.isempty ? (M.n == nout) : (X.n == ncon);
+  __CPROVER_assert(!g_oob, "normMatrix: every element read of Y and X and every element written lies inside its matrix");
+  if (!conform) __CPROVER_assert(g_thrown && nset_tot == 0, "normMatrix: non-conforming dimensions are refused before anything is written");
+  if (conform)
+  {
+    __CPROVER_assert(!g_thrown, "normMatrix: conforming dimensions are accepted");
+    __CPROVER_assert(nset_tot == nout * (nout + 1) / 2 && nset_IJ == 1, "normMatrix: every cell of the lower triangle is written exactly once");
+    if (X.isempty)
+    {
+      __CPROVER_assert(snap_ytot == 2 * ncon, "normMatrix (X absent): the sum for a cell has one term per index of the contracted dimension of Y");
+      __CPROVER_assert(snap_yA == ((gI == gJ) ? 2 : 1), "normMatrix (X absent): the term of every contracted index k reads Y at (k, row) [or (row, k) when transposed]");
+    }
+    else
+    {
+      __CPROVER_assert(snap_xtot == ncon * ncon && snap_ytot == 2 * ncon * ncon, "normMatrix (X given): the sum for a cell has one term per pair of contracted indices");
+      __CPROVER_assert(snap_xKL == 1, "normMatrix (X given): every element X(k,l) enters the sum of a cell exactly once");
+    }
+  }
+  VF_REACH();
+}
+"""
+    return Unit("C11.normMatrix.terms", [f], mode="cpp", prelude="#define NM %d\n" % NM + pre, harness=h, checks=[], unwind=NM + 1, timeout=900,
+                backends=("minisat", "cadical"),
+                claim=("MatrixSquareSymmetric::normMatrix (congruence product, real text verbatim): for both transposition flags, X given or absent, and every "
+                       "shape of Y up to %dx%d — non-conforming dimensions are refused before anything is written; otherwise every read stays inside Y / X, every "
+                       "cell of the lower triangle is written once, and the sum of a cell runs over exactly the contracted dimension of Y (each index, resp. each "
+                       "pair of indices with X, exactly once)" % (NM, NM)),
+                assumptions=["Route X: matrices are ghosts carrying their dimensions and counting element accesses; the floating-point values are not modelled",
+                             "with X given, the documented preconditions are assumed for the dimension of the receiving matrix (the function does not test it)"],
+                bounded="matrices up to %dx%d; unwind %d with unwinding assertions" % (NM, NM, NM + 1),
+                canaries=[{"fn": "MatrixSquareSymmetric::normMatrix", "rx": r"for \(int icol = 0; icol <= irow; icol\+\+\)", "rp": "for (int icol = 0; icol < irow; icol++)", "expect": r"assertion"}])
+
+
 def units(tier):
-    return [unit_dense_dims(), unit_sparse_dims()]
+    return [unit_dense_dims(), unit_sparse_dims(), unit_normmatrix()]
 
 
 META = {
-    "level": "proof",
-    "explanation": "Shape/index contracts of the Eigen-backed dense kernels and sparse product kernels for every shape; numerical values, sparse storage, decompositions and thread-count independence are not decidable here.",
+    "level": "other",
+    "explanation": "(the two dimension units are unbounded proofs, normMatrix.terms is a bounded stand-in, hence level 'other') Shape/index contracts of the Eigen-backed dense kernels and sparse product kernels for every shape; numerical values, sparse storage, decompositions and thread-count independence are not decidable here.",
     "trusted_base": ["CBMC 6.11 C++ front end", "Eigen (numerics)", "stub classes"],
     "assumptions": [],
     "not_covered": ["values computed by Eigen/csparse", "csparse storage of MatrixSparse and its non-product methods", "Cholesky / eigen-decomposition", "thread-count independence (no thread model)",
                     "generic AMatrix fallbacks and VectorHelper reductions (planned, not built)"],
 }
 MANIFEST = {
-    "category": "proof",
-    "text": "Dimension-typing contracts on the Eigen-backed kernels of AMatrixDense (18 methods) and on the Eigen-storage product kernels of MatrixSparse (9 methods): loop-free, hence for every matrix shape and both transposition flags; values are not claimed.",
+    "category": "other",
+    "text": "Dimension-typing contracts on the Eigen-backed kernels of AMatrixDense (18 methods) and on the Eigen-storage product kernels of MatrixSparse (9 methods): loop-free, hence for every matrix shape and both transposition flags (proved); bounded (3x3) term-coverage unit on the generic congruence product normMatrix; values are not claimed.",
     "note": "Trusted: Eigen preconditions as documented; numerical results N/A.",
     "design_ref": "DESIGN.md 3 C11",
 }
